@@ -308,6 +308,13 @@ pub fn run(cfg: &Cfg) {
                         declared.push(sk.public().clone());
                     }
                 }
+                // (through the SubjectPublicKeyInfo importer, which takes the scheme from the caller too)
+                if let Ok(Ok(spki)) = guarded({ let pk = k.public().clone(); move || pk.as_spki() }) {
+                    let sc = scheme.clone();
+                    if let Ok(Ok(p)) = guarded(move || PublicKey::from_spki(&spki, sc)) {
+                        declared.push(p);
+                    }
+                }
                 for p in declared {
                     if p.scheme() == k.public().scheme() {
                         continue;
@@ -325,6 +332,22 @@ pub fn run(cfg: &Cfg) {
                         let res = guarded(move || mb.verify(t, keys.iter()).is_ok());
                         sink.stat(&format!("misdeclared-scheme/{}/{}", what, match res { Ok(true) => "ACCEPTED", Ok(false) => "rejected", Err(()) => "panic" }));
                         sink.oracle(res == Ok(false), &format!("a signature made with the material's real algorithm counts for a key that declares another scheme ({})", what), &format!("key {} declared as {:?}; threshold {} block {}", k.label, p.scheme(), t, j));
+                    }
+                    // the converse: an authorized key that cannot verify anything (its declared scheme does not
+                    // fit its material, or is not known at all) has a signature listed under its id - that
+                    // entry does not count, and it takes nothing away either: the genuine key's valid
+                    // signature still meets threshold 1, whichever entry the map yields first
+                    for round in 0..4 {
+                        let entries = vec![Entry { label: keyid_hex(&p), sig: sig.clone(), valid_under_label: false, class: "misdeclared" }, Entry { label: keyid_hex(k.public()), sig: sig.clone(), valid_under_label: true, class: "valid" }];
+                        let j = block_json(&meta, &entries);
+                        let mb: Metablock = match serde_json::from_value(j.clone()) {
+                            Ok(m) => m,
+                            Err(_) => continue,
+                        };
+                        let keys = if round % 2 == 0 { vec![p.clone(), k.public().clone()] } else { vec![k.public().clone(), p.clone()] };
+                        let res = guarded(move || mb.verify(1, keys.iter()).is_ok());
+                        sink.stat(&format!("unusable-key-next-to-a-signer/{}", match res { Ok(true) => "accepted", Ok(false) => "REJECTED", Err(()) => "panic" }));
+                        sink.oracle(res == Ok(true), "verify failed although one authorized key signed validly (threshold 1; another authorized key, unusable, has an entry under its id)", &format!("key {} next to itself declared as {:?}; threshold 1 block {}", k.label, p.scheme(), j));
                     }
                 }
             }
